@@ -27,12 +27,51 @@ def signature(rec):
     )
 
 
+def loose_signature(rec):
+    """signature without the receiver: what survives a move of the function to another type / trait /
+    module (the receiver parameter and the impl context are dropped)"""
+    ps = [p["ty"] for p in rec.get("params", [])]
+    if ps and (rec.get("self_ty") or rec.get("in_trait")) and re.sub(r"^&(mut )?", "", ps[0]).split("<")[0] in ((rec.get("self_ty") or "").split("<")[0], "Self"):
+        ps = ["self"] + ps[1:]
+    return json.dumps({"params": ps, "ret": rec.get("ret")}, sort_keys=True)
+
+
+def fingerprint(rec):
+    """what the body mentions: callee names, field names, constructors and constants"""
+    out = set()
+
+    def walk(o):
+        if isinstance(o, dict):
+            c = o.get("callee")
+            if isinstance(c, dict) and c.get("name"):
+                out.add("c:" + c["name"])
+            if o.get("k") == "MethodCall" and o.get("method"):
+                out.add("c:" + o["method"])
+            if o.get("k") == "Field" and o.get("field"):
+                out.add("f:" + str(o["field"]))
+            if o.get("k") == "Path" and isinstance(o.get("res"), dict):
+                cp = o["res"].get("ctor_path") or (o["res"].get("path") if o["res"].get("res") == "Def" and o["res"].get("kind") in ("Const", "Static", "Ctor") else None)
+                if cp:
+                    out.add("p:" + cp.split("::")[-2] + "::" + cp.split("::")[-1] if "::" in cp else "p:" + cp)
+            if o.get("k") == "Struct" and isinstance(o.get("res"), dict) and o["res"].get("path"):
+                out.add("s:" + o["res"]["path"].split("::")[-1])
+            for v in o.values():
+                if isinstance(v, (dict, list)):
+                    walk(v)
+        elif isinstance(o, list):
+            for v in o:
+                walk(v)
+
+    walk(rec.get("body"))
+    return sorted(out)
+
+
 def generate(facts):
     table = {}
     for rec in facts["fns"]:
         if rec.get("gen") or rec.get("closure") or "body" not in rec:
             continue
-        table[rec["def"]] = {"name": rec["name"], "sig": signature(rec)}
+        table[rec["def"]] = {"name": rec["name"], "sig": signature(rec), "loose": loose_signature(rec), "fp": fingerprint(rec)}
     os.makedirs(os.path.dirname(TABLE), exist_ok=True)
     with open(TABLE, "w") as fh:
         json.dump(table, fh, indent=0, sort_keys=True)
@@ -62,6 +101,27 @@ def normalise(facts):
         cands = by_sig.get(sig, [])
         if len(ds) == 1 and len(cands) == 1:
             renames[cands[0]] = ds[0]
+    # second pass: functions moved to another type / trait / module (receiver and impl context differ).
+    # Same parameters apart from the receiver, same result, and a body that mentions the same things;
+    # the best candidate must be clearly better than the runner-up.
+    taken = set(renames)
+    matched = set(renames.values())
+    for d, t in sorted(missing.items()):
+        if d in matched or not t.get("loose") or not t.get("fp"):
+            continue
+        want = set(t["fp"])
+        scored = []
+        for nd, rec in new.items():
+            if nd in taken or loose_signature(rec) != t["loose"]:
+                continue
+            got = set(fingerprint(rec))
+            j = len(want & got) / float(len(want | got) or 1)
+            scored.append((j, nd))
+        scored.sort(reverse=True)
+        if scored and scored[0][0] >= 0.6 and (len(scored) == 1 or scored[0][0] - scored[1][0] >= 0.15):
+            renames[scored[0][1]] = d
+            taken.add(scored[0][1])
+            matched.add(d)
     if not renames:
         return []
     name_map = {}
@@ -70,18 +130,23 @@ def normalise(facts):
     applied = []
 
     def fix_callee(c):
+        hit = None
         for key in ("path", "resolved"):
             p = c.get(key)
             if p and _strip_generics(p) in name_map:
                 canon, nm = name_map[_strip_generics(p)]
                 c[key] = canon
                 c["name"] = nm
+                hit = nm
+        return hit
 
     def walk(o):
         if isinstance(o, dict):
             c = o.get("callee")
             if isinstance(c, dict):
-                fix_callee(c)
+                nm = fix_callee(c)
+                if nm and o.get("k") == "MethodCall" and o.get("method"):
+                    o["method"] = nm
             if o.get("k") == "Path" and isinstance(o.get("res"), dict):
                 p = o["res"].get("path")
                 if p and _strip_generics(p) in name_map:
